@@ -83,6 +83,7 @@ func VH_C10_mbappReassembly() bool {
 	r := vNewSwarm(vInner{mtu: HeaderSize + 1, sent: &sent}, 64)
 	vStartReceiver(r, &got, 8)
 	fed := make([]int, len(frags))
+	rbuf := make([]byte, 64)
 	steps := 5
 	if vThorough() {
 		steps = 6
@@ -93,7 +94,12 @@ func VH_C10_mbappReassembly() bool {
 			break
 		}
 		fed[i]++
-		r.handleMessage(context.Background(), frags[i].src, 0, append([]byte{}, frags[i].data...))
+		// the inner swarm recycles one receive buffer: handleMessage must not retain the payload
+		nb := copy(rbuf, frags[i].data)
+		r.handleMessage(context.Background(), frags[i].src, 0, rbuf[:nb])
+		for j := range rbuf {
+			rbuf[j] = 0xEE
+		}
 	}
 	vCheckDelivered(got, msgs, fed, frags)
 	if len(got) > 0 {
@@ -131,5 +137,36 @@ func VH_C01_mbappRoundTrip() bool {
 	vAssert(got[0].src == 1 && got[0].dst == 0, "addresses-not-preserved")
 	vAssert(vEqBytes(got[0].payload, msgs[0].payload), "payload-differs-from-what-was-told")
 	vCover("delivered")
+	return true
+}
+
+// verif: sched=coop time=concrete unwind=24 cover=both-delivered bounds="mbapp: two sources each tell one 2-byte message (2 parts each, same counter and origin millisecond), the 4 parts are delivered once each in every order: both messages arrive intact, each attributed to its real sender"
+func VH_C01_mbappTwoSources() bool {
+	msgs := []vTold{{src: 1, payload: vBytesN(2)}, {src: 2, payload: vBytesN(2)}}
+	frags, ok := vTellAll(HeaderSize+1, msgs)
+	if !ok {
+		return false
+	}
+	var sent []vSent
+	var got []vGot
+	r := vNewSwarm(vInner{mtu: HeaderSize + 1, sent: &sent}, 64)
+	vStartReceiver(r, &got, 4)
+	left := make([]int, len(frags))
+	for i := range left {
+		left[i] = i
+	}
+	for len(left) > 0 {
+		k := vInt(0, len(left)-1)
+		f := frags[left[k]]
+		left = append(left[:k], left[k+1:]...)
+		r.handleMessage(context.Background(), f.src, 0, append([]byte{}, f.data...))
+	}
+	vAssert(len(got) == 2, "not-exactly-two-deliveries")
+	for _, g := range got {
+		vAssert(g.dst == 0 && (g.src == 1 || g.src == 2), "addresses-not-preserved")
+		vAssert(vEqBytes(g.payload, msgs[int(g.src)-1].payload), "payload-is-not-what-that-sender-told")
+	}
+	vAssert(got[0].src != got[1].src, "one-sender-delivered-twice")
+	vCover("both-delivered")
 	return true
 }
